@@ -1,3 +1,554 @@
 package main
 
-func moreStructural(pkgs map[string]*pkgInfo) {}
+import (
+	"fmt"
+	"go/ast"
+	"go/token"
+	"go/types"
+	"sort"
+	"strings"
+)
+
+// More structural facts: lock regions (C07/C08), writes and header installs on the request path
+// (C07/C12), defensive copies in newConfig (C12), loops on the request path (C18).
+
+func moreStructural(pkgs map[string]*pkgInfo) {
+	p := pkgs["cors"]
+	lockFacts(p)
+	requestPath(pkgs)
+	newConfigFacts(p)
+}
+
+// leanStrList encodes a list of strings as `List Bytes` (byte lists reduce in the kernel, so the
+// theorems over these facts are closed by `decide`); the readable form goes into the doc comment.
+func leanStrList(ss []string) string {
+	return leanBytesList(ss)
+}
+
+// leanRows encodes rows of `|`-separated fields as `List (List Bytes)`.
+func leanRows(rows []string) string {
+	parts := make([]string, len(rows))
+	for i, r := range rows {
+		parts[i] = leanBytesList(strings.Split(r, "|"))
+	}
+	return "[" + strings.Join(parts, ", ") + "]"
+}
+
+func readable(ss []string) string { return strings.Join(ss, " ; ") }
+
+// ---------------------------------------------------------------- lock facts
+
+// isMiddlewareField reports whether e is `x.icfg` / `x.debug` / `x.mu` for x of type (*)Middleware,
+// and whether x is the method receiver or a parameter (shared) rather than a local variable.
+func isMiddlewareField(p *pkgInfo, e ast.Expr) (field string, shared bool, ok bool) {
+	sel, isSel := e.(*ast.SelectorExpr)
+	if !isSel {
+		return "", false, false
+	}
+	id, isId := sel.X.(*ast.Ident)
+	if !isId {
+		return "", false, false
+	}
+	obj := p.info.Uses[id]
+	if obj == nil {
+		return "", false, false
+	}
+	t := obj.Type()
+	if pt, isPtr := t.(*types.Pointer); isPtr {
+		t = pt.Elem()
+	}
+	named, isNamed := t.(*types.Named)
+	if !isNamed || named.Obj().Name() != "Middleware" {
+		return "", false, false
+	}
+	_, isPtr := obj.Type().(*types.Pointer)
+	return sel.Sel.Name, isPtr, true
+}
+
+// linearise walks a function body in source order and emits lock operations, accesses to the
+// shared fields and returns. Within an assignment, right-hand sides come before left-hand sides.
+func linearise(p *pkgInfo, body ast.Node) []string {
+	var out []string
+	var walk func(n ast.Node)
+	emitExpr := func(e ast.Expr, write bool) {
+		ast.Inspect(e, func(n ast.Node) bool {
+			if call, ok := n.(*ast.CallExpr); ok {
+				if sel, ok := call.Fun.(*ast.SelectorExpr); ok {
+					if f, _, ok := isMiddlewareField(p, sel.X); ok && f == "mu" {
+						switch sel.Sel.Name {
+						case "Lock":
+							out = append(out, "lock")
+						case "Unlock":
+							out = append(out, "unlock")
+						case "RLock":
+							out = append(out, "rlock")
+						case "RUnlock":
+							out = append(out, "runlock")
+						}
+						return false
+					}
+				}
+			}
+			if ex, ok := n.(ast.Expr); ok {
+				if f, shared, ok := isMiddlewareField(p, ex); ok && f != "mu" {
+					kind := "r:"
+					if write {
+						kind = "w:"
+					}
+					if !shared {
+						kind = "local-" + kind
+					}
+					out = append(out, kind+f)
+					return false
+				}
+			}
+			if _, ok := n.(*ast.FuncLit); ok {
+				return false
+			}
+			return true
+		})
+	}
+	walk = func(n ast.Node) {
+		switch s := n.(type) {
+		case nil:
+		case *ast.BlockStmt:
+			for _, st := range s.List {
+				walk(st)
+			}
+		case *ast.AssignStmt:
+			for _, r := range s.Rhs {
+				emitExpr(r, false)
+			}
+			for _, l := range s.Lhs {
+				if _, _, ok := isMiddlewareField(p, l); ok {
+					emitExpr(l, true)
+				} else {
+					emitExpr(l, false)
+				}
+			}
+		case *ast.ExprStmt:
+			emitExpr(s.X, false)
+		case *ast.ReturnStmt:
+			for _, r := range s.Results {
+				emitExpr(r, false)
+			}
+			out = append(out, "return")
+		case *ast.IfStmt:
+			walk(s.Init)
+			emitExpr(s.Cond, false)
+			walk(s.Body)
+			if s.Else != nil {
+				walk(s.Else)
+			}
+		case *ast.DeclStmt:
+			// var declarations: initialisers
+			ast.Inspect(s, func(n ast.Node) bool {
+				if vs, ok := n.(*ast.ValueSpec); ok {
+					for _, v := range vs.Values {
+						emitExpr(v, false)
+					}
+				}
+				return true
+			})
+		case *ast.DeferStmt:
+			out = append(out, "defer")
+			emitExpr(s.Call, false)
+		case *ast.GoStmt:
+			out = append(out, "go")
+		case *ast.ForStmt:
+			out = append(out, "loop")
+			walk(s.Body)
+		case *ast.RangeStmt:
+			out = append(out, "loop")
+			walk(s.Body)
+		case *ast.SwitchStmt:
+			walk(s.Init)
+			if s.Tag != nil {
+				emitExpr(s.Tag, false)
+			}
+			walk(s.Body)
+		case *ast.CaseClause:
+			for _, e := range s.List {
+				emitExpr(e, false)
+			}
+			for _, st := range s.Body {
+				walk(st)
+			}
+		default:
+			// any other statement: scan for accesses conservatively
+			if st, ok := n.(ast.Stmt); ok {
+				ast.Inspect(st, func(n ast.Node) bool {
+					if ex, ok := n.(ast.Expr); ok {
+						if f, _, ok := isMiddlewareField(p, ex); ok && f != "mu" {
+							out = append(out, "r:"+f)
+							return false
+						}
+					}
+					return true
+				})
+			}
+		}
+	}
+	walk(body)
+	return out
+}
+
+func lockFacts(p *pkgInfo) {
+	var touching []string
+	for _, f := range p.files {
+		for _, d := range f.Decls {
+			fd, ok := d.(*ast.FuncDecl)
+			if !ok || fd.Body == nil {
+				continue
+			}
+			if fd.Name.Name == "Wrap" {
+				// the handler is the function literal returned by Wrap
+				ast.Inspect(fd.Body, func(n ast.Node) bool {
+					if fl, ok := n.(*ast.FuncLit); ok {
+						seq := linearise(p, fl.Body)
+						add("cors_prog_Wrap", ": List Bytes := "+leanStrList(trimTail(seq)), "lock operations and shared-field accesses of the handler returned by Wrap, in source order: "+readable(trimTail(seq)))
+						touching = append(touching, "Wrap")
+						return false
+					}
+					return true
+				})
+				continue
+			}
+			seq := linearise(p, fd.Body)
+			touches := false
+			for _, s := range seq {
+				if strings.Contains(s, ":") || strings.Contains(s, "lock") {
+					touches = true
+				}
+			}
+			if touches {
+				add("cors_prog_"+fd.Name.Name, ": List Bytes := "+leanStrList(trimTail(seq)), "lock operations and shared-field accesses of "+fd.Name.Name+", in source order: "+readable(trimTail(seq)))
+				touching = append(touching, fd.Name.Name)
+			}
+		}
+	}
+	sort.Strings(touching)
+	add("cors_sharedStateFunctions", ": List Bytes := "+leanStrList(touching), "functions that mention the mutex or the fields it guards: "+readable(touching))
+}
+
+// trimTail drops everything after the last lock operation or shared access except one "return".
+func trimTail(seq []string) []string {
+	last := -1
+	for i, s := range seq {
+		if s != "return" && s != "loop" {
+			last = i
+		}
+	}
+	out := append([]string{}, seq[:last+1]...)
+	for _, s := range seq[last+1:] {
+		if s == "return" {
+			out = append(out, "return")
+			break
+		}
+	}
+	return out
+}
+
+// ---------------------------------------------------------------- request path
+
+var requestPathRoots = []string{"handleNonCORS", "handleCORSPreflight", "handleCORSActual", "processOriginForPreflight", "processACRPN", "processACRM", "processACRH"}
+
+// functions of the internal packages that the request path calls
+var requestPathInternal = map[string][]string{
+	"origins": {"Parse", "parseScheme", "fastParseHost", "parsePort", "Contains", "contains", "lastByte", "splitAtCommonSuffix", "IsEmpty", "isLowerAlpha", "isSubsequentSchemeByte", "isASCIILabelByte", "isDigit", "isNonZeroDigit", "intFromDigit"},
+	"headers": {"First", "Check", "cutAtComma", "TrimOWS", "trimLeftOWS", "trimRightOWS", "isOWS"},
+	"util":    {"IndexAfter", "MaxLen", "Size", "Contains"},
+	"methods": {"IsSafelisted"},
+}
+
+func classify(p *pkgInfo, e ast.Expr) string {
+	switch v := e.(type) {
+	case *ast.Ident:
+		switch v.Name {
+		case "originSgl", "acrmSgl", "acrh":
+			return "request"
+		case "vary":
+			return "response"
+		case "buf":
+			return "buffer"
+		}
+		if tv, ok := p.info.Types[e]; ok && tv.Value != nil {
+			return "fresh"
+		}
+		return "other:" + v.Name
+	case *ast.SelectorExpr:
+		if x, ok := v.X.(*ast.Ident); ok {
+			if x.Name == "headers" {
+				if strings.HasSuffix(v.Sel.Name, "Sgl") {
+					return "singleton"
+				}
+				return "fresh" // string constant: Add/Set allocate the slice
+			}
+			if x.Name == "icfg" {
+				return "config:" + v.Sel.Name
+			}
+		}
+		return "other"
+	case *ast.CallExpr:
+		if id, ok := v.Fun.(*ast.Ident); ok && id.Name == "append" {
+			return "response"
+		}
+		return "call"
+	case *ast.CompositeLit:
+		return "fresh"
+	}
+	return "other"
+}
+
+func requestPath(pkgs map[string]*pkgInfo) {
+	p := pkgs["cors"]
+	var writes, installs []string
+	for _, name := range requestPathRoots {
+		fd := funcDecl(p, name)
+		if fd == nil {
+			installs = append(installs, name+"|MISSING")
+			continue
+		}
+		ast.Inspect(fd.Body, func(n ast.Node) bool {
+			switch s := n.(type) {
+			case *ast.AssignStmt:
+				for i, l := range s.Lhs {
+					// writes through the receiver or to package-level variables
+					root := l
+					for {
+						switch r := root.(type) {
+						case *ast.SelectorExpr:
+							root = r.X
+							continue
+						case *ast.IndexExpr:
+							root = r.X
+							continue
+						case *ast.StarExpr:
+							root = r.X
+							continue
+						}
+						break
+					}
+					if id, ok := root.(*ast.Ident); ok {
+						obj := p.info.Uses[id]
+						if obj == nil {
+							obj = p.info.Defs[id]
+						}
+						if id.Name == "icfg" && root != l {
+							writes = append(writes, name+": "+exprString(l))
+						}
+						if v, ok := obj.(*types.Var); ok && v.Parent() == p.pkg.Scope() {
+							writes = append(writes, name+": "+exprString(l))
+						}
+						if sel, ok := root.(*ast.Ident); ok && sel.Name == "headers" {
+							writes = append(writes, name+": "+exprString(l))
+						}
+					}
+					// header installs
+					if ix, ok := l.(*ast.IndexExpr); ok && s.Tok == token.ASSIGN {
+						if tid, ok := ix.X.(*ast.Ident); ok && (tid.Name == "resHdrs" || tid.Name == "buf") && i < len(s.Rhs) {
+							installs = append(installs, name+"|"+tid.Name+"|assign|"+classify(p, s.Rhs[i]))
+						}
+					}
+				}
+			case *ast.CallExpr:
+				if sel, ok := s.Fun.(*ast.SelectorExpr); ok {
+					if tid, ok := sel.X.(*ast.Ident); ok && (tid.Name == "resHdrs" || tid.Name == "buf") {
+						switch sel.Sel.Name {
+						case "Add", "Set":
+							// Header.Add / Header.Set take a string and allocate (or append to) the value slice themselves
+							installs = append(installs, name+"|"+tid.Name+"|"+strings.ToLower(sel.Sel.Name)+"|fresh")
+						case "Del":
+							installs = append(installs, name+"|"+tid.Name+"|del|-")
+						}
+					}
+					if x, ok := sel.X.(*ast.Ident); ok && x.Name == "maps" && sel.Sel.Name == "Copy" && len(s.Args) == 2 {
+						installs = append(installs, name+"|"+exprString(s.Args[0])+"|copy|"+classify(p, s.Args[1]))
+					}
+				}
+			}
+			return true
+		})
+	}
+	add("cors_requestPathWrites", ": List Bytes := "+leanStrList(writes), "assignments through the configuration receiver or to package-level variables in the request-path functions: "+readable(writes))
+	add("cors_installs", ": List (List Bytes) := "+leanRows(installs), "function|target|operation|provenance of every header-map write on the request path: "+readable(installs))
+
+	// the wrapped handler is called last on each non-preflight path, with the identifiers w and r
+	var calls []string
+	for _, f := range p.files {
+		ast.Inspect(f, func(n ast.Node) bool {
+			call, ok := n.(*ast.CallExpr)
+			if !ok {
+				return true
+			}
+			if sel, ok := call.Fun.(*ast.SelectorExpr); ok && sel.Sel.Name == "ServeHTTP" {
+				if x, ok := sel.X.(*ast.Ident); ok && x.Name == "h" {
+					var args []string
+					for _, a := range call.Args {
+						args = append(args, exprString(a))
+					}
+					calls = append(calls, strings.Join(args, ","))
+				}
+			}
+			return true
+		})
+	}
+	add("cors_handlerCalls", ": List Bytes := "+leanStrList(calls), "arguments of every call of the wrapped handler: "+readable(calls))
+
+	// loops
+	var loops []string
+	scan := func(pk *pkgInfo, names []string) {
+		want := map[string]bool{}
+		for _, n := range names {
+			want[n] = true
+		}
+		for _, f := range pk.files {
+			for _, d := range f.Decls {
+				fd, ok := d.(*ast.FuncDecl)
+				if !ok || fd.Body == nil || !want[fd.Name.Name] {
+					continue
+				}
+				ast.Inspect(fd.Body, func(n ast.Node) bool {
+					var body *ast.BlockStmt
+					switch s := n.(type) {
+					case *ast.ForStmt:
+						body = s.Body
+					case *ast.RangeStmt:
+						body = s.Body
+					}
+					if body == nil {
+						return true
+					}
+					ast.Inspect(body, func(n ast.Node) bool {
+						switch e := n.(type) {
+						case *ast.CallExpr:
+							cn := calleeName(e)
+							if tv, ok := pk.info.Types[e.Fun]; ok && tv.IsType() {
+								// conversion
+								if b, ok := tv.Type.Underlying().(*types.Basic); ok && b.Info()&types.IsNumeric != 0 {
+									return true
+								}
+								loops = append(loops, pk.name+"."+fd.Name.Name+": alloc conversion "+exprString(e.Fun))
+								return true
+							}
+							switch cn {
+							case "append", "make", "new":
+								loops = append(loops, pk.name+"."+fd.Name.Name+": alloc "+cn)
+							default:
+								loops = append(loops, pk.name+"."+fd.Name.Name+": call "+cn)
+							}
+						case *ast.BinaryExpr:
+							if e.Op == token.ADD {
+								if tv, ok := pk.info.Types[e]; ok {
+									if b, ok := tv.Type.Underlying().(*types.Basic); ok && b.Info()&types.IsString != 0 && tv.Value == nil {
+										loops = append(loops, pk.name+"."+fd.Name.Name+": alloc string concatenation")
+									}
+								}
+							}
+						case *ast.CompositeLit:
+							loops = append(loops, pk.name+"."+fd.Name.Name+": alloc composite literal")
+						case *ast.FuncLit:
+							loops = append(loops, pk.name+"."+fd.Name.Name+": alloc func literal")
+						}
+						return true
+					})
+					return false
+				})
+			}
+		}
+	}
+	scan(p, requestPathRoots)
+	for pkgName, names := range requestPathInternal {
+		if pk := pkgs[pkgName]; pk != nil {
+			scan(pk, names)
+		}
+	}
+	sort.Strings(loops)
+	loops = dedup(loops)
+	add("cors_requestPathLoops", ": List (List Bytes) := "+leanRows(loopRows(loops)), "function|kind|what for every call and allocating construct lexically inside `for` loops of the functions on the request path: "+readable(loops))
+}
+
+// loopRows turns "pkg.func: kind what" into "pkg.func|kind|what".
+func loopRows(ss []string) []string {
+	out := make([]string, len(ss))
+	for i, s := range ss {
+		fn, rest, _ := strings.Cut(s, ": ")
+		kind, what, _ := strings.Cut(rest, " ")
+		out[i] = fn + "|" + kind + "|" + what
+	}
+	return out
+}
+
+func dedup(ss []string) []string {
+	var out []string
+	for i, s := range ss {
+		if i == 0 || s != ss[i-1] {
+			out = append(out, s)
+		}
+	}
+	return out
+}
+
+func exprString(e ast.Expr) string {
+	switch v := e.(type) {
+	case *ast.Ident:
+		return v.Name
+	case *ast.SelectorExpr:
+		return exprString(v.X) + "." + v.Sel.Name
+	case *ast.IndexExpr:
+		return exprString(v.X) + "[" + exprString(v.Index) + "]"
+	case *ast.StarExpr:
+		return "*" + exprString(v.X)
+	case *ast.CallExpr:
+		return exprString(v.Fun) + "(…)"
+	case *ast.BasicLit:
+		return v.Value
+	case *ast.ArrayType:
+		return "[]" + exprString(v.Elt)
+	}
+	return fmt.Sprintf("%T", e)
+}
+
+// ---------------------------------------------------------------- newConfig
+
+// newConfigFacts: how every slice field of the Config returned by newConfig is produced.
+func newConfigFacts(p *pkgInfo) {
+	fd := funcDecl(p, "newConfig")
+	var rows []string
+	if fd != nil {
+		ast.Inspect(fd.Body, func(n ast.Node) bool {
+			as, ok := n.(*ast.AssignStmt)
+			if !ok {
+				return true
+			}
+			for i, l := range as.Lhs {
+				ls := exprString(l)
+				if !strings.HasPrefix(ls, "cfg.") || i >= len(as.Rhs) {
+					continue
+				}
+				tv, ok := p.info.Types[as.Rhs[i]]
+				if !ok {
+					continue
+				}
+				if _, isSlice := tv.Type.Underlying().(*types.Slice); !isSlice {
+					continue
+				}
+				class := "shared:" + exprString(as.Rhs[i])
+				switch r := as.Rhs[i].(type) {
+				case *ast.CompositeLit:
+					class = "fresh"
+				case *ast.CallExpr:
+					switch cn := calleeName(r); {
+					case strings.HasSuffix(cn, ".Elems"), strings.HasSuffix(cn, ".ToSlice"), cn == "strings.Split", cn == "slices.Clone":
+						class = "fresh"
+					default:
+						class = "call:" + cn
+					}
+				}
+				rows = append(rows, ls+"|"+class)
+			}
+			return true
+		})
+	}
+	add("cors_newConfigSlices", ": List (List Bytes) := "+leanRows(rows), "field|provenance of every slice stored into the Config returned by newConfig: "+readable(rows))
+}
